@@ -640,19 +640,26 @@ LOOK_FLOOR = {
                            'look:class:next-to-real-part': 560, 'look:class:replaced+distractor': 370,
                            'look:class:replaced+repeated-member': 270, 'look:class:blank-suffixed': 88,
                            'look:class:info-look-alike': 27, 'look:class:seeded': 270,
-                           'look:replaced:control': 1250, 'look:replaced:data': 1300, 'look:replaced:both': 0,
+                           'look:replaced:control': 1250, 'look:replaced:data': 1300,
                            'look:replaced:first-member:look-alike': 890, 'look:replaced:last-member:look-alike': 890,
                            'look:replaced:open:fileobj': 1400, 'look:replaced:open:filename': 240,
                            'look:must-reject:blank-suffixed-name': 22, 'look:must-reject:debian-binary-look-alike': 27}},
-    'thorough': {'monitors': {'M.look': 3600, 'M.look.must-reject': 2900, 'M.look.replaced-part': 2500},
-                 'name': 35,
-                 'counters': {}},
+    'thorough': {'monitors': {'M.look': 24000, 'M.look.must-reject': 20000, 'M.look.replaced-part': 15000},
+                 'name': 270,
+                 'counters': {'look:class:replaced': 1390, 'look:class:both-replaced': 270, 'look:class:two-look-alikes': 370,
+                              'look:class:next-to-real-part': 560, 'look:class:replaced+distractor': 370,
+                              'look:class:replaced+repeated-member': 270, 'look:class:blank-suffixed': 88,
+                              'look:class:info-look-alike': 27, 'look:class:seeded': 21000,
+                              'look:replaced:control': 7400, 'look:replaced:data': 7500,
+                              'look:replaced:first-member:look-alike': 5500, 'look:replaced:last-member:look-alike': 5500,
+                              'look:replaced:open:fileobj': 8200, 'look:replaced:open:filename': 1370,
+                              'look:must-reject:blank-suffixed-name': 22, 'look:must-reject:debian-binary-look-alike': 1770}},
 }
 FOBJ_FLOOR = {
     'quick': {'monitors': {'M.fobj.pkg': 280, 'M.fobj.query': 20000, 'M.fobj.ar': 280, 'M.fobj.set': 1300},
               'per-kind-part-compression': 8, 'open': 400, 'look:replaced:open': 220},
-    'thorough': {'monitors': {'M.fobj.pkg': 280, 'M.fobj.query': 20000, 'M.fobj.ar': 280, 'M.fobj.set': 1300},
-                 'per-kind-part-compression': 8, 'open': 400, 'look:replaced:open': 220},
+    'thorough': {'monitors': {'M.fobj.pkg': 17900, 'M.fobj.query': 1270000, 'M.fobj.ar': 17900, 'M.fobj.set': 8800},
+                 'per-kind-part-compression': 850, 'open': 6600, 'look:replaced:open': 1340},
 }
 
 
